@@ -49,7 +49,8 @@ var pureExternalPrefixes = []string{
 	"(github.com/cosmos/cosmos-sdk/types.Coin).", "(github.com/cosmos/cosmos-sdk/types.Coins).", "(github.com/cosmos/cosmos-sdk/types.DecCoins).", "(github.com/cosmos/cosmos-sdk/types.DecCoin).",
 	"github.com/cosmos/cosmos-sdk/types.NewDecCoin", "github.com/cosmos/cosmos-sdk/types.NewDecCoins",
 	"(cosmossdk.io/math.Int).", "(cosmossdk.io/math.LegacyDec).", "cosmossdk.io/math.", "(cosmossdk.io/math.Uint).",
-	"github.com/cosmos/gogoproto/proto.", "github.com/gogo/protobuf/proto.",
+	"github.com/cosmos/gogoproto/proto.", "github.com/gogo/protobuf/proto.", "github.com/golang/protobuf/proto.", "google.golang.org/protobuf/proto.",
+	"github.com/lavanet/lava/v5/protocol/parser.CapStringLen",
 	"unicode/utf8.", "slices.", "maps.", "golang.org/x/exp/slices.", "golang.org/x/exp/maps.",
 }
 
@@ -111,13 +112,16 @@ func init() {
 		"(*github.com/lavanet/lava/v5/utils.LavaMutex).Lock", "(*github.com/lavanet/lava/v5/utils.LavaMutex).Unlock"} {
 		reg(n, func(fr *Frame, st *State, c *ssa.CallCommon, args []*Term) ([]*Term, bool) { return nil, true })
 	}
-	reg("(*sync.Mutex).TryLock", func(fr *Frame, st *State, c *ssa.CallCommon, args []*Term) ([]*Term, bool) {
-		return []*Term{fr.ex.f.Fresh("trylock", SBool)}, true
-	})
+	for _, n := range []string{"(*sync.Mutex).TryLock", "(*sync.RWMutex).TryLock", "(*sync.RWMutex).TryRLock"} {
+		reg(n, func(fr *Frame, st *State, c *ssa.CallCommon, args []*Term) ([]*Term, bool) {
+			return []*Term{fr.ex.f.Fresh("trylock", SBool)}, true
+		})
+	}
 	reg("(*github.com/lavanet/lava/v5/utils.LavaMutex).TryLock", func(fr *Frame, st *State, c *ssa.CallCommon, args []*Term) ([]*Term, bool) {
 		return []*Term{fr.ex.f.Fresh("trylock", SBool)}, true
 	})
 	regAtomics()
+	regAtomicTypes()
 	regMath()
 	regStrings()
 }
@@ -127,6 +131,7 @@ func u64type() types.Type { return types.Typ[types.Uint64] }
 func regAtomics() {
 	load := func(t types.Type) LibFn {
 		return func(fr *Frame, st *State, c *ssa.CallCommon, args []*Term) ([]*Term, bool) {
+			fr.interfere(st, args[0], t)
 			v := fr.ex.load(st, args[0], t)
 			fr.ex.assume(st, fr.ex.tm.WellTyped(v, t, 1))
 			return []*Term{v}, true
@@ -141,6 +146,7 @@ func regAtomics() {
 	add := func(t types.Type) LibFn {
 		return func(fr *Frame, st *State, c *ssa.CallCommon, args []*Term) ([]*Term, bool) {
 			ex := fr.ex
+			fr.interfere(st, args[0], t)
 			v := ex.load(st, args[0], t)
 			ex.assume(st, ex.tm.WellTyped(v, t, 1))
 			nv := ex.wrap1(ex.f.Add(v, args[1]), t)
@@ -152,6 +158,7 @@ func regAtomics() {
 		return func(fr *Frame, st *State, c *ssa.CallCommon, args []*Term) ([]*Term, bool) {
 			ex := fr.ex
 			f := ex.f
+			fr.interfere(st, args[0], t)
 			v := ex.load(st, args[0], t)
 			ex.assume(st, ex.tm.WellTyped(v, t, 1))
 			ok := f.Eq(v, args[1])
@@ -165,6 +172,54 @@ func regAtomics() {
 		reg("sync/atomic.Store"+name, storeF(t), w)
 		reg("sync/atomic.Add"+name, add(t), w)
 		reg("sync/atomic.CompareAndSwap"+name, cas(t), w)
+	}
+}
+
+// typed atomics (atomic.Bool, atomic.Int64, ...): each operation is one step on the cell behind the receiver
+func regAtomicTypes() {
+	kinds := map[string]types.Type{"Bool": types.Typ[types.Bool], "Int64": types.Typ[types.Int64], "Uint64": types.Typ[types.Uint64], "Int32": types.Typ[types.Int32], "Uint32": types.Typ[types.Uint32]}
+	for name, t := range kinds {
+		t := t
+		w := "P." + sanitize(string(SInt))
+		if name == "Bool" {
+			w = "P.Bool"
+		}
+		pre := "(*sync/atomic." + name + ")."
+		reg(pre+"Load", func(fr *Frame, st *State, c *ssa.CallCommon, args []*Term) ([]*Term, bool) {
+			fr.interfere(st, args[0], t)
+			v := fr.ex.load(st, args[0], t)
+			fr.ex.assume(st, fr.ex.tm.WellTyped(v, t, 1))
+			return []*Term{v}, true
+		})
+		reg(pre+"Store", func(fr *Frame, st *State, c *ssa.CallCommon, args []*Term) ([]*Term, bool) {
+			fr.ex.store(st, args[0], t, args[1])
+			return nil, true
+		}, w)
+		reg(pre+"Swap", func(fr *Frame, st *State, c *ssa.CallCommon, args []*Term) ([]*Term, bool) {
+			fr.interfere(st, args[0], t)
+			v := fr.ex.load(st, args[0], t)
+			fr.ex.store(st, args[0], t, args[1])
+			return []*Term{v}, true
+		}, w)
+		reg(pre+"CompareAndSwap", func(fr *Frame, st *State, c *ssa.CallCommon, args []*Term) ([]*Term, bool) {
+			ex := fr.ex
+			fr.interfere(st, args[0], t)
+			v := ex.load(st, args[0], t)
+			ok := ex.f.Eq(v, args[1])
+			ex.store(st, args[0], t, ex.f.Ite(ok, args[2], v))
+			return []*Term{ok}, true
+		}, w)
+		if name != "Bool" {
+			reg(pre+"Add", func(fr *Frame, st *State, c *ssa.CallCommon, args []*Term) ([]*Term, bool) {
+				ex := fr.ex
+				fr.interfere(st, args[0], t)
+				v := ex.load(st, args[0], t)
+				ex.assume(st, ex.tm.WellTyped(v, t, 1))
+				nv := ex.wrap1(ex.f.Add(v, args[1]), t)
+				ex.store(st, args[0], t, nv)
+				return []*Term{nv}, true
+			}, w)
+		}
 	}
 }
 
@@ -205,9 +260,9 @@ func specFunc(ex *Exec, name string) SpecFn {
 			return CV{ex.f.BigInt(new(big.Int).Exp(big.NewInt(10), big.NewInt(18), nil)), nil}
 		}
 	}
-	return nil
+	return specFuncExtra(ex, name)
 }
 
 func specMethod(ex *Exec, recv CV, name string) SpecFn {
-	return nil
+	return specMethodExtra(ex, recv, name)
 }
